@@ -195,15 +195,17 @@ theorem Points_empty_src_eq_model : LineSrc.Points_empty = PointsIt.empty := by
 /-- What one call of `next` shows to the caller, in the hand model's vocabulary. -/
 def nextView (r : Option Pt × PointsIt) : Option (Pt × PointsIt) := r.1.map (fun p => (p, r.2))
 
+set_option linter.unusedSimpArgs false in -- `h1` is used when the source tests `points_remaining == 0` instead of `> 0`
 /-- **`Iterator::next` (regenerated) = `PointsIt.next` (hand model)**: one step of the generated state machine is one
 step of the hand model (same point, same successor state; `None` together). -/
 theorem Points_next_src_eq_model (it : PointsIt) : nextView (LineSrc.Points_Iterator_next it) = it.next := by
   unfold LineSrc.Points_Iterator_next PointsIt.next nextView
   simp only [Bresenham_next_src_eq_model]
   line_simp []
-  by_cases h : it.pointsRemaining > 0
-  · simp only [h, decide_true, ↓reduceIte, Option.map_some]
-  · simp only [h, decide_false, ↓reduceIte, Bool.false_eq_true, Option.map_none]
+  rcases Nat.eq_zero_or_pos it.pointsRemaining with hr | hr
+  · simp [hr]
+  · have h1 : it.pointsRemaining ≠ 0 := by omega
+    simp [hr, h1]
 
 /-- What a `for` loop collects from the regenerated iterator in at most `steps` calls of `next`. -/
 def srcCollect : Nat → PointsIt → List Pt
